@@ -6,6 +6,7 @@
 //   mode sched         : <count> random schedulers, every builder, lookups
 //   mode tables        : exhaustive name / compatibility tables
 #include <pops/scheduling.hpp>
+#include <pops/config.hpp>
 #include "common.hpp"
 using namespace pops;
 using verif::Rng;
@@ -158,6 +159,47 @@ int main(int argc, char** argv) {
         });
     } else if (mode == "sched") {
         verif::run_cases("h_date", mode, seed, first, count, [&](verif::Case& c) { emit_sched(c); });
+    } else if (mode == "config") {
+        // Config::create_schedules: which builder each feature gets (lethal: yearly on day 1 of its
+        // month; survival: yearly on month/day; mortality / spread rate / quarantine / output: by name)
+        verif::run_cases("h_date", mode, seed, first, count, [&](verif::Case& c) {
+            Rng& rng = c.rng; std::ostream& out = c.out;
+            static const std::vector<std::string> freqs = {"", "final_step", "year", "yearly", "month", "monthly", "week", "weekly", "day", "daily", "every_n_steps", "every_step", "time_step", "bogus"};
+            auto q = [](const std::string& f) { return f.empty() ? std::string("<empty>") : f; };
+            static const std::vector<std::string> safe = {"", "final_step", "year", "yearly", "month", "monthly", "every_step", "time_step"};
+            auto pickf = [&] { return rng.coin(80) ? safe[(size_t)rng.in(0, 7)] : (rng.coin(90) ? freqs[(size_t)rng.in(0, 12)] : freqs[13]); };
+            int unit = rng.in(0, 2);
+            unsigned num = unit == 0 ? (unsigned)rng.in(1, 28) : unit == 1 ? (unsigned)(rng.coin(50) ? 1 : rng.in(2, 30)) : (unsigned)rng.in(1, 7);
+            Date st = random_date(rng, unit == 2 && !rng.coin(4)); Date en(st); en.add_days((unsigned)(rng.coin(10) ? rng.in(0, 20) : rng.in(30, 900)));
+            pops::Config cfg;
+            cfg.set_date_start(st.year(), st.month(), st.day()); cfg.set_date_end(en.year(), en.month(), en.day());
+            cfg.set_step_unit(unit == 0 ? StepUnit::Day : unit == 1 ? StepUnit::Week : StepUnit::Month); cfg.set_step_num_units(num);
+            int ss = rng.in(1, 12), se = rng.in(ss, 12); cfg.set_season_start_end_month(ss, se);
+            cfg.output_frequency = pickf(); cfg.output_frequency_n = (unsigned)rng.in(0, 5);
+            cfg.use_mortality = rng.coin(); cfg.mortality_frequency = pickf(); cfg.mortality_frequency_n = (unsigned)rng.in(0, 5);
+            cfg.use_lethal_temperature = rng.coin(); cfg.lethal_temperature_month = rng.in(1, 12);
+            cfg.use_survival_rate = rng.coin(); cfg.survival_rate_month = rng.in(1, 12); cfg.survival_rate_day = rng.in(1, 28);
+            cfg.use_spreadrates = rng.coin(); cfg.spreadrate_frequency = pickf(); cfg.spreadrate_frequency_n = (unsigned)rng.in(0, 5);
+            cfg.use_quarantine = rng.coin(); cfg.quarantine_frequency = pickf(); cfg.quarantine_frequency_n = (unsigned)rng.in(0, 5);
+            cfg.weather_size = rng.coin(40) ? 0 : rng.in(1, 9);
+            out << "cfgsched " << (unit == 0 ? "day" : unit == 1 ? "week" : "month") << " " << num << " " << ds(st) << " " << ds(en) << " " << ss << " " << se
+                << " " << q(cfg.output_frequency) << " " << cfg.output_frequency_n << " " << cfg.use_mortality << " " << q(cfg.mortality_frequency) << " " << cfg.mortality_frequency_n
+                << " " << cfg.use_lethal_temperature << " " << cfg.lethal_temperature_month << " " << cfg.use_survival_rate << " " << cfg.survival_rate_month << " " << cfg.survival_rate_day
+                << " " << cfg.use_spreadrates << " " << q(cfg.spreadrate_frequency) << " " << cfg.spreadrate_frequency_n << " " << cfg.use_quarantine << " " << q(cfg.quarantine_frequency) << " " << cfg.quarantine_frequency_n
+                << " " << cfg.weather_size << " => ";
+            std::string e = verif::err_kind([&] { cfg.create_schedules(); });
+            if (!e.empty()) { out << e << "\n"; stats.add("config_rejected"); c.nontrivial = false; return; }
+            auto opt = [&](bool use, const std::vector<bool>& v) { return use ? bits(v) : std::string("off"); };
+            out << "ok " << cfg.scheduler().get_num_steps() << " spread=" << bits(cfg.spread_schedule()) << " output=" << bits(cfg.output_schedule())
+                << " mortality=" << opt(cfg.use_mortality, cfg.mortality_schedule())
+                << " lethal=" << (cfg.use_lethal_temperature ? bits(cfg.lethal_schedule()) : std::string("off"))
+                << " survival=" << (cfg.use_survival_rate ? bits(cfg.survival_rate_schedule()) : std::string("off"))
+                << " rates=" << (cfg.use_spreadrates ? bits(cfg.spread_rate_schedule()) : std::string("off"))
+                << " quarantine=" << (cfg.use_quarantine ? bits(cfg.quarantine_schedule()) : std::string("off")) << " weather=";
+            if (!cfg.weather_size) out << "off"; else { auto& w = cfg.weather_table(); for (size_t i = 0; i < w.size(); i++) out << (i ? "," : "") << w[i]; }
+            out << "\n";
+            stats.add("config_accepted"); c.nontrivial = true;
+        });
     } else if (mode == "tables") {
         // case index = unit * 31 + (n - 1); index 93 = unit-name table
         if (first + count > 94) count = 94 - first;
